@@ -3,4 +3,4 @@ From Coq Require Import ZArith List.
 From PV Require Import C14.C14_Model.
 Require Extraction.
 Require Import ExtrOcamlBasic.
-Extraction "c14_model.ml" init_machine step flat load old_memcpy_to old_pipe_to_view.
+Extraction "c14_model.ml" init_machine step flat load old_memcpy_to old_pipe_to_view old_extract_front_into old_extract_back_into.
